@@ -98,26 +98,29 @@ const (
 	c04KeyClasses
 )
 
-func c04KeyOfClass(class, n int) string {
+func c04KeyOfClass(class, n int) string { return c04KeyOfClassNS(class, n, "r") }
+
+// c04KeyOfClassNS: the same, the registered namespace being ns.
+func c04KeyOfClassNS(class, n int, ns string) string {
 	switch class {
 	case c04KeyUnknownNS:
 		return fmt.Sprintf("/u/key-%d", n)
 	case c04KeyBare:
 		return fmt.Sprintf("key-%d", n)
 	case c04KeyNoLeadingSlash:
-		return fmt.Sprintf("r/key-%d", n)
+		return fmt.Sprintf("%s/key-%d", ns, n)
 	case c04KeyNoPath:
 		return fmt.Sprintf("/key-%d", n)
 	case c04KeyBareNS:
-		return "/r"
+		return "/" + ns
 	case c04KeyUnknownNSEmpty:
 		return "/u/"
 	case c04KeyEmptyNS:
 		return fmt.Sprintf("//key-%d", n)
 	case c04KeyRegisteredEmpty:
-		return "/r/"
+		return "/" + ns + "/"
 	}
-	return fmt.Sprintf("/r/key-%d", n)
+	return fmt.Sprintf("/%s/key-%d", ns, n)
 }
 
 // c04NSV is the oracle's own copy of the validator the clients are configured
@@ -125,8 +128,16 @@ func c04KeyOfClass(class, n int) string {
 // the rank validator under "r" (never the seam wrapper: the oracle's validations
 // do not park). The clients' default set also has "ipns"; no generated key
 // lies there.
-func c04NSV(rv rankValidator) record.NamespacedValidator {
-	return record.NamespacedValidator{"pk": record.PublicKeyValidator{}, "r": rv}
+func c04NSV(rv rankValidator) record.NamespacedValidator { return c04NSVFor(rv, "r") }
+
+// c04NSVFor: the same for a node whose configuration puts the rank validator
+// under ns. A namespace the configuration names is validated by what the
+// configuration says - also where the library would otherwise install a
+// validator of its own ("pk", "ipns").
+func c04NSVFor(rv rankValidator, ns string) record.NamespacedValidator {
+	v := record.NamespacedValidator{"pk": record.PublicKeyValidator{}}
+	v[ns] = rv
+	return v
 }
 
 // c04AcceptAll is the validator of the OTHER value store that wrote a record
